@@ -340,6 +340,8 @@ class Ctx:
             f"cd /verif/lean && lake build SamVerif.Props.{self.prop} && "
             f"lake env lean SamVerif/Audit/{self.prop}.lean   # #print axioms of every property theorem")
         cov["trusted_base"] = trusted or []
+        if "leanchecker" in audit_res:
+            cov["leanchecker"] = audit_res["leanchecker"]
         if extra:
             cov.update(extra)
         cov["samples"] = cov["samples"][:8]
@@ -377,6 +379,16 @@ def proof_gate(ctx, search=None):
     if not ok:
         ctx.violation("Lean driver/model no longer builds", {"broken": "lake build drv-" + ctx.prop.lower(), "log": log[-4000:]}, no_input=True)
     res = audit(ctx.prop)
+    if not ctx.quick and not res["failed"]:
+        # thorough tier: independent re-check of the compiled theorem modules
+        audit_file = os.path.join(LEAN, "SamVerif", "Audit", f"{ctx.prop}.lean")
+        mods = re.findall(r"^import\s+(SamVerif\.\S+)", open(audit_file).read(), re.M)
+        with Lock("lake"):
+            rc, out = sh(["lake", "env", "leanchecker"] + mods, cwd=LEAN, timeout=3600)
+        res["leanchecker"] = "ok" if rc == 0 else out[-2000:]
+        if rc != 0:
+            res["failed"].append(("<leanchecker>", "independent re-check of the .olean files failed"))
+            res["log"] += out
     if res["failed"]:
         found = False
         if search:
